@@ -243,6 +243,11 @@ def gen_optimize(L):
     if vskip and not (vskip.start() < vb.index("sub_args(")):
         raise TranslateError("var_change_optimizer_cons_eval: the pair-head guard moved after sub_args")
     L.append("Definition OPT_VAR_CHANGE_SKIPS_PAIR_HEAD : bool := %s." % ("true" if vskip else "false"))
+    # the same guard on the substituted form, before its operands are optimised one by one
+    vskip2 = re.search(r"if\s+let\s+SExp::Pair\s*\(\s*new_head\s*,\s*_\s*\)\s*=\s*allocator\s*\.\s*sexp\s*\(\s*new_eval_sexp_args\s*\)\s*\{\s*if\s+let\s+SExp::Pair\s*\(\s*_\s*,\s*_\s*\)\s*=\s*allocator\s*\.\s*sexp\s*\(\s*new_head\s*\)\s*\{\s*return\s+Ok\s*\(\s*r\s*\)\s*;", vb)
+    if vskip2 and not (vb.index("sub_args(") < vskip2.start() < vb.index("proper_list(")):
+        raise TranslateError("var_change_optimizer_cons_eval: the guard on the substituted form is not between sub_args and the operand loop")
+    L.append("Definition OPT_VAR_CHANGE_SKIPS_NEW_PAIR_HEAD : bool := %s." % ("true" if vskip2 else "false"))
     L.append("(* stage_2/optimize.rs: are ((X) . operands) forms left alone by sub_args and children_optimizer *)")
     L.append("Definition OPT_PAIR_HEAD_OPAQUE : bool := %s." % ("true" if opaque else "false"))
     L.append("(* stage_2/optimize.rs: how path atoms are read *)")
